@@ -24,3 +24,12 @@ Theorem C13_wait_timer s c : has_room s = false -> c = false \/ (w_kind (ws_cfg 
   c_due x = timer_at_arrival (ws_cfg s) (ws_now s).
 Proof. exact (wait_timer s c). Qed.
 Print Assumptions C13_wait_timer.
+
+(* the timers firing at an instant t on the queue limiter refuse exactly the callers blocked with due time t, at t, and touch
+   nobody else (so a caller is not refused before its bound) nor the capacity; together with C13_wait_timer: a queued caller
+   that receives no hand-off returns refused at exactly arrival + backlog timeout *)
+Theorem C13_queue_timeout s t pref i c : w_kind (ws_cfg s) = KQueue -> nth_error (ws_callers s) i = Some c ->
+  nth_error (ws_callers (fire s t pref)) i = Some (if blocked c && (c_due c =? t) then mk_caller 2 t 0 (c_cancel c) else c) /\
+  ws_busy (fire s t pref) = ws_busy s.
+Proof. exact (fire_queue s t pref i c). Qed.
+Print Assumptions C13_queue_timeout.
